@@ -4,4 +4,9 @@ go 1.23.0
 
 require github.com/moov-io/iso8583 v0.0.0
 
+require (
+	github.com/yerden/go-util v1.1.4 // indirect
+	golang.org/x/text v0.23.0 // indirect
+)
+
 replace github.com/moov-io/iso8583 => /repo
